@@ -705,7 +705,7 @@ impl Driver for C14 {
         }
     }
     fn rule(&self) -> String {
-        "continuous G-lp models (<=6 variables, <=6 rows, 30% with mostly zero right-hand sides), Beale / Kuhn / Marshall-Suurballe / Chvatal cycling examples - plain and behind a strictly improving first pivot (an independent variable with the most attractive cost), solved both ways - and 3x3, 4x4 assignment polytopes, converted by into_standard_form().into_tableau() and solved by Tableau::solve / solve_step_by_step with the step log (hook H3) recording every step_inner call of phase 1 (solve_avoiding) and phase 2, including the switch to Bland's rule; after EVERY pivot: basic columns unit, reduced costs of basic columns 0, b >= 0, basic solution and all n-m edge points satisfy the INITIAL equalities, the tableau encodes the same affine objective as the initial one, objective never worse, ratio test minimal, no basis repeats under Bland; at the end the certified exact optimum / unboundedness of the run's initial tableau must match, and a solve that ends with 'Iteration Limit Reached' (limit 10 000) is a violation. non-trivial = history with at least two pivots".into()
+        "continuous G-lp models (<=6 variables, <=6 rows, 30% with mostly zero right-hand sides), Beale / Kuhn / Marshall-Suurballe / Chvatal cycling examples - plain and behind a strictly improving first pivot (an independent variable with the most attractive cost), solved both ways - and 3x3, 4x4 assignment polytopes, converted by into_standard_form().into_tableau() and solved by Tableau::solve / solve_step_by_step with the step log (hook H3) recording every step_inner call of phase 1 (solve_avoiding) and phase 2, including the switch to Bland's rule; after EVERY pivot: basic columns unit, reduced costs of basic columns 0, b >= 0, basic solution and all n-m edge points satisfy the INITIAL equalities, the tableau encodes the same affine objective as the initial one, objective never worse, ratio test minimal, no basis repeats under Bland; at the end the certified exact optimum / unboundedness of the run's initial tableau must match, and a solve that ends with 'Iteration Limit Reached' (limit 10 000) is a violation. non-trivial = history with at least two pivots After every pivot the tableau is also compared entry by entry with the Gauss-Jordan image of the tableau before it (1e-9 relative), and a directly converted start tableau must have exact unit columns; one model in ten carries a coefficient of a few millionths.".into()
     }
     fn thresholds(&self, tier: Tier) -> Thresholds {
         let s = tier.pick(20, 300);
